@@ -1,15 +1,20 @@
 """C14 plug-in: parameter ports clamp to their declared range and report every change.
 
 Case line (harness/h_C14.cpp, ocaml/C14/driver.ml):
-  sugar <kind> <depth> <name> <N> <mintext|-> <maxtext|-> <opts|-> <init> <ops> <minconv|-> <maxconv|->
+  sugar <kind> <depth> <name> <N> <mintext|-> <maxtext|-> <opts|-> <init> <ops> <minconv|-> <maxconv|-> <tv0>
     kind    P F I O OE T S1 S5 S16 AI AF AO AT PA PS CO ATM AIW  (OE: rOption on a scoped-enum field;
             AIW: rArrayI on an int array, initial contents also outside the char range;
             PA/PS: the two ports rParams generates; CO: rCOptionCb(getcode, setcode) with a counting setter,
             init "value,setter invocations"; ATM: rArrayTCbMember, init/state = (other member, member) per element)
-    depth   0: the port is dispatched at the root, 1: below the rRecur port "sub/"
+            OM: the static port o<n> (n = 1..24) of harness/h_C14_options.h, declared rOption(o<n>, rOptions(<the first n of
+            OM_SYMS>)) - one port per argument count the rOptions macro family supports; <opts> is the declared list
+    depth   0: the port is dispatched at the root, 1: below the rRecur port "sub/" ("om/" for OM) of a static
+            top-level table that also holds rParamI(tv, rLinear(-50, 50)); one RtData serves the whole history
     opts    k=symbol,...        (the ":map k\\0=symbol" entries, in order)
     init    initial field contents (16 elements for the array kinds, hex buffer for S*)
-    ops     q[<idx>] | s[<idx>]=<t><v> joined by ';'   t/v: i<dec> c<dec> f<hex8> S<hex> s<hex> T F
+    ops     q[<idx>] | s[<idx>]=<t><v> | t | t=i<v> joined by ';'   t/v: i<dec> c<dec> f<hex8> S<hex> s<hex> T F
+            (t: query / set of the top level's own /tv between the messages into the sub-tree, depth 1 only)
+    tv0     initial value of the top level's tv
     minconv/maxconv   the bounds as atoi / (float)atof deliver them (decimal resp. hex8) - the
                       model is given these, the implementation the text
 Output: <messages of op 1>;...#<final field contents>   (see harness/h_C14.cpp)
@@ -31,13 +36,19 @@ VARIANT = "plain"
 RULE = ("every macro-generated parameter kind (rParam/char, rParamF, rParamI, rOption on int and on scoped-enum fields, rToggle, rString of "
         "length 1/5/16, rArrayI, rArrayF, rArrayOption, rArrayT, both ports of rParams, rCOptionCb over a counting setter, "
         "rArrayTCbMember on a struct array) with run-time names "
-        "(with and without digits), array lengths 1..16, dispatched at the root or below rRecur; declared "
+        "(with and without digits), array lengths 1..16, dispatched at the root or below the rRecur port of a static top-level table that "
+        "holds a parameter of its own (rParamI(tv, rLinear(-50,50))): ONE RtData and location buffer serve the whole history of a case and about 30 % of "
+        "the ops of a below-root case are sets / queries of that top-level parameter between the messages into the sub-tree; a static table with one "
+        "rOption(o<n>, rOptions(<n distinct symbols>)) port per argument count n = 1..24 of the rOptions macro family, every symbol of every port "
+        "sent by name ('S') and by number ('i'/'c') and queried, the stored index must be the symbol's position; declared "
         "min/max absent / negative / fractional (float kinds) / type extremes; initial contents arbitrary "
         "(also outside the range); 1..12 sets and queries per case with incoming values in range, at and "
         "one step beyond each bound, type extremes (char kinds -128..127 only), +-0, denormals, +-inf, "
         "non-integral floats (a few NaN cases run for model/implementation agreement only), known option symbols (duplicates, non-contiguous indices), strings shorter / "
         "equal / longer than the buffer.  Non-trivial = at least two ops and at least one stored value changed.")
-TRUSTED = ["harness/h_C14.cpp: builds a one-port rtosc::Ports at run time from the macro-generated callback of a "
+TRUSTED = ["harness/h_C14_options.h + OM_SYMS below: the 24 rOptions(...) argument lists are written twice (C++ macro invocations, Python list); "
+           "the harness refuses a case whose option list is not the one its header declares",
+           "harness/h_C14.cpp: builds a one-port rtosc::Ports at run time from the macro-generated callback of a "
            "template port and a generated name/metadata block, dispatches real OSC messages into it (directly or "
            "through rRecur), records RtData::reply(const char*)/broadcast(const char*), prints the object's fields",
            "tools/props/C14.py: Python's int()/float()+struct rounding stand for atoi/(float)atof when the bounds are "
@@ -62,7 +73,7 @@ SCALAR_NUM = ("P", "F", "I", "O")
 ARRAYS = ("AI", "AF", "AO", "AT", "PA", "ATM", "AIW")
 TOGGLES = ("T", "AT", "ATM")
 # the port's own argument types an undo event may carry (the alternatives of its "::spec" that hold a number)
-OWN_TAGS = {"P": "c", "F": "f", "I": "i", "O": "ic", "OE": "ic", "CO": "ic", "AI": "i", "AF": "f", "AO": "ic", "PA": "i", "AIW": "i"}
+OWN_TAGS = {"P": "c", "F": "f", "I": "i", "O": "ic", "OE": "ic", "OM": "ic", "CO": "ic", "AI": "i", "AF": "f", "AO": "ic", "PA": "i", "AIW": "i"}
 STRLEN = {"S1": 1, "S5": 5, "S16": 16}
 BACK = 16
 INT_MIN, INT_MAX = -2**31, 2**31 - 1
@@ -95,6 +106,12 @@ def fnext(b, up):
 
 def hx(bs):
     return bytes(bs).hex() if bs else "-"
+
+# the symbols harness/h_C14_options.h declares: port o<n> is rOption(o<n>, rOptions(<the first n>), "d")
+OM_SYMS = ("alpha bravo charlie delta echo foxtrot golf hotel india juliet kilo lima mike november oscar papa "
+           "quebec romeo sierra tango uniform victor whiskey xray").split()
+OM_COUNTS = 24                    # OPTIONS_IMP1 .. OPTIONS_IMP24 in include/rtosc/port-sugar.h
+TV_MIN, TV_MAX = -50, 50          # rParamI(tv, rLinear(-50, 50)) of the harness's top-level table
 
 # ------------------------------------------------------------------ generator
 NAMES = ["vol", "gain", "x", "Pfreq", "mode_sel", "v2", "a1b", "osc2gain", "p9v", "x15y", "n0", "Q7"]
@@ -258,8 +275,14 @@ def gen_case(rng, dist):
 
     nops = rng.choice([1, 2, 3, 4, 5, 6, 8, 12])
     ops = []
+    tv0 = rng.choice([0, 0, 7, -50, 50, rng.randint(-50, 50), 77, -1000]) if depth else 0
     for _ in range(nops):
         idx = ""
+        if depth and rng.random() < 0.3:
+            # a message to the top level's own parameter between the messages into the sub-tree
+            ops.append(top_op(rng))
+            dist["top-level-op-between-subtree-ops"] = dist.get("top-level-op-between-subtree-ops", 0) + 1
+            continue
         if kind in ARRAYS:
             r = rng.random()
             i = N if r < 0.04 else rng.randrange(N)
@@ -282,13 +305,49 @@ def gen_case(rng, dist):
         dist["AIW-wide-elements"] = dist.get("AIW-wide-elements", 0) + wide
     if kind in ("F", "AF") and ("7fc00000" in init + ";".join(ops) or "ffc00001" in init + ";".join(ops)):
         dist["nan (judged up to the first NaN)"] = dist.get("nan (judged up to the first NaN)", 0) + 1
-    return "sugar %s %d %s %d %s %s %s %s %s %s %s" % (
+    return "sugar %s %d %s %d %s %s %s %s %s %s %s %d" % (
         kind, depth, name, N, mn or "-", mx or "-",
-        ",".join("%d=%s" % kv for kv in opts) or "-", init, ";".join(ops), mnc or "-", mxc or "-")
+        ",".join("%d=%s" % kv for kv in opts) or "-", init, ";".join(ops), mnc or "-", mxc or "-", tv0)
+
+def top_op(rng):
+    if rng.random() < 0.3:
+        return "t"
+    return "t=i%d" % rng.choice([TV_MIN - 1, TV_MIN, TV_MIN + 1, 0, 1, -1, TV_MAX - 1, TV_MAX, TV_MAX + 1, 1000, -1000,
+                                 rng.randint(TV_MIN, TV_MAX), rng.randint(-200, 200)])
+
+def gen_om(rng, dist, n, by):
+    """the static port o<n>: every symbol of its list is sent by name ('S') or by number ('i' / 'c'), in a
+    random order, each followed by a query; the stored index must be the symbol's position in the list"""
+    syms = OM_SYMS[:n]
+    depth = rng.choice([0, 1])
+    order = list(range(n))
+    rng.shuffle(order)
+    ops = []
+    for i in order:
+        if by == "symbol":
+            ops.append("s=S" + syms[i].encode().hex())
+        else:
+            ops.append("s=%s%d" % (rng.choice("ic"), i))
+        ops.append("q")
+        if depth and rng.random() < 0.2:
+            ops.append(top_op(rng))
+    init = rng.choice([0, n - 1, n, -1, 99, rng.randrange(n)])
+    tv0 = rng.randint(TV_MIN, TV_MAX) if depth else 0
+    dist["kind=OM"] = dist.get("kind=OM", 0) + 1
+    dist["OM-list-lengths-driven-by-" + by] = dist.get("OM-list-lengths-driven-by-" + by, 0) + 1
+    dist["ops"] = dist.get("ops", 0) + len(ops)
+    dist["below-root"] = dist.get("below-root", 0) + depth
+    return "sugar OM %d o%d 0 - - %s %d %s - - %d" % (
+        depth, n, ",".join("%d=%s" % (i, sy) for i, sy in enumerate(syms)), init, ";".join(ops), tv0)
 
 def gen(rng, tier, dist):
     n = 3000 if tier == "quick" else 220000
-    return [gen_case(rng, dist) for _ in range(n)]
+    out = []
+    for rounds in range(1 if tier == "quick" else 20):
+        for cnt in range(1, OM_COUNTS + 1):
+            out.append(gen_om(rng, dist, cnt, "symbol"))
+            out.append(gen_om(rng, dist, cnt, "number"))
+    return out + [gen_case(rng, dist) for _ in range(n)]
 
 # ----------------------------------------------------------------- Spec oracle
 def parse_msgs(piece):
@@ -390,10 +449,42 @@ def nan_scope(f):
     init = [int(x, 16) for x in f[8].split(",")]
     return first, {i for i, b in enumerate(init) if is_nan_bits(b)}
 
+def check_top(n, op, piece, tvs):
+    """an op on the top level's own parameter /tv (rParamI, declared range TV_MIN..TV_MAX); tvs = [stored value]"""
+    tv = op[1:].partition("=")[2]
+    if piece in ("NOMATCH", "BADOP", "NONE"):
+        return "dispatch: op %d (%s) was not delivered: %s" % (n, op, piece)
+    msgs = parse_msgs(piece)
+    if not tv:
+        if len(msgs) != 1 or msgs[0][0] != "r":
+            return "query: op %d: expected exactly one reply from /tv, got %s" % (n, piece)
+        if msgs[0][1] != "/tv":
+            return "query: op %d: reply at %s, the port's address is /tv" % (n, msgs[0][1])
+        if msgs[0][3] != [str(tvs[0])]:
+            return "query: op %d: /tv replied %s, stored %d" % (n, msgs[0][3], tvs[0])
+        return None
+    old, new = tvs[0], min(max(int(tv[1:]), TV_MIN), TV_MAX)
+    tvs[0] = new
+    bc = [m for m in msgs if m[0] == "b"]
+    for rb, path, types, vals in bc:
+        if path != "/tv":
+            return "broadcast: op %d: broadcast at %s, the port's address is /tv" % (n, path)
+        if vals != [str(new)]:
+            return "broadcast: op %d: /tv broadcast carries %s, the stored value is %d" % (n, vals, new)
+    if old != new and not bc:
+        return "broadcast: op %d: /tv changed (%d) and nothing was broadcast" % (n, new)
+    got = [(m[2], m[3]) for m in msgs if m[0] == "r" and m[1] == "/undo_change"]
+    want = [("sii", [b"/tv".hex(), str(old), str(new)])] if old != new else []
+    if got != want:
+        return "top-undo: op %d: undo events of /tv %s, expected %s" % (n, got, want)
+    return None
+
 def stored_before(f, n):
     """the abstract store just before op n (oracle's own replay of the case)"""
     st = Store(f)
     for op in f[9].split(";")[:n]:
+        if op[0] == "t":
+            continue
         idxt, _, tv = op[1:].partition("=")
         elem = int(idxt) if st.kind in ARRAYS else 0
         if op[0] == "s" and elem < max(st.N, 1) and st.kind not in STRLEN:
@@ -418,6 +509,9 @@ def spec_check(case, impl):
         return "format: " + impl[:100]
     if " " in final:
         return "frame: the object was touched outside the port's field:" + final[final.index(" "):]
+    final, _, tv_final = final.partition("@")
+    tvs = [int(f[12]) if len(f) > 12 and f[12] != "-" else 0]
+    below = "om/" if k == "OM" else "sub/"
     pieces = pieces.split(";")
     ops = f[9].split(";")
     if len(pieces) != len(ops):
@@ -429,6 +523,11 @@ def spec_check(case, impl):
         body = op[1:]
         idxt, _, tv = body.partition("=")
         elem = 0
+        if op[0] == "t":
+            bad = check_top(n, op, piece, tvs)
+            if bad:
+                return bad
+            continue
         if k in ARRAYS:
             elem = int(idxt)
             if elem >= st.N:
@@ -438,7 +537,7 @@ def spec_check(case, impl):
                 continue
         if piece in ("NOMATCH", "BADOP", "NONE"):
             return "dispatch: op %d (%s) was not delivered: %s" % (n, op, piece)
-        loc = "/" + ("sub/" if depth == "1" else "") + name + idxt
+        loc = "/" + (below if depth == "1" else "") + name + idxt
         msgs = parse_msgs(piece)
         if elem in nan_elems:
             # the element still holds its initial NaN: a set stores the clamped incoming value
@@ -511,6 +610,8 @@ def spec_check(case, impl):
                             "values would not reach the port again" % (n, ty, k, "' or ',".join(OWN_TAGS[k])))
     if nan_from < len(ops) or nan_elems:
         return soft
+    if depth == "1" and tv_final != str(tvs[0]):
+        return "clamp: the top level's tv holds %s after the history, expected %d" % (tv_final or "nothing", tvs[0])
     # final contents: the clamped / truncated / translated values, nothing else touched
     if k in STRLEN:
         got = bytes.fromhex(final).split(b"\0")[0]
